@@ -14,6 +14,13 @@ mod w1ops;
 mod w3exec;
 mod w3gen;
 mod w3ops;
+mod w3stat;
+mod w4;
+mod w4agents;
+mod w4gen;
+mod w4probe;
+mod probe;
+mod shapes_gen;
 
 use crate::core::Tier;
 
@@ -57,8 +64,12 @@ fn main() {
             let spec = checks::find(&args[2]).unwrap_or_else(|| usage());
             let idx: u64 = args[3].parse().unwrap_or_else(|_| usage());
             let rs = rng::run_seed(runner::verif_seed(), spec.id, idx);
-            let scn = (spec.generate)(spec.id, rs, Tier::Quick);
+            let scn = (spec.generate)(spec.id, rs, Tier::Quick, idx);
             println!("{}", serde_json::to_string_pretty(&scn).unwrap());
+        }
+        "child-sim" => {
+            core::install_panic_hook();
+            std::process::exit(w4::child_main(&args));
         }
         "list" => {
             for s in checks::specs() {
